@@ -81,8 +81,8 @@ OpOf(ev, s) ==
          [] ev.e = "SetFrequencyVector" -> b @@ [n |-> ev.n, fv |-> ev.fv]
          [] ev.e = "SetZ0" -> b @@ [n |-> ev.n, z |-> ev.z]
          [] ev.e = "AddStd" ->
-               b @@ [n |-> ev.n, std |-> [shape |-> ev.shape,
-                                          ports |-> ev.ports, hs |-> ev.hs]]
+               b @@ [n |-> ev.n, std |-> [shape |-> ev.shape, ports |-> ev.ports,
+                                          hs |-> ev.hs, ex |-> ev.ex]]
          [] ev.e \in {"Solve", "NewFree"} -> b @@ [n |-> ev.n]
          [] ev.e = "AddCalibration" ->
                b @@ [n |-> ev.n, name |-> ev.name, ci |-> ev.ci,
